@@ -73,6 +73,68 @@ DELEGATES_TO = {'Add': ('Add',), 'Mul': ('Mul',), 'Sub': ('Add',), 'Neg': ('Mul'
 BRANCH_KERNELS = [('v1::Quadratic', 'Add', 'v1::Linear'), ('v1::Quadratic', 'Add', 'f64'), ('v1::Quadratic', 'Mul', 'f64'), ('v1::Quadratic', 'Add', 'v1::Quadratic')]
 
 
+# hand-written (non-delegating) operator impls of the pinned tree and the rule family that decides each; every other impl of
+# the table is a delegation (macro generated).  When a delegation is REPLACED by a hand-written body the impl is a new kernel:
+# it is handed to the kernel rules that fit its shape (NEW_KERNEL_SHAPES) or decided by the weaker generic condition.
+PINNED_KERNELS = {
+    ('v1::Linear', 'Add', 'v1::Linear'): 'C02.kernel', ('v1::Linear', 'Add', 'f64'): 'C02.deleg (trivial aggregate)',
+    ('v1::Polynomial', 'Add', 'v1::Polynomial'): 'C02.kernel', ('v1::Quadratic', 'Add', 'v1::Quadratic'): 'C02.branches + C02.kernel',
+    ('v1::Quadratic', 'Add', 'v1::Linear'): 'C02.branches', ('v1::Quadratic', 'Add', 'f64'): 'C02.branches',
+    ('v1::Function', 'Add', 'v1::Function'): 'C02.dispatch', ('v1::Linear', 'Mul', 'f64'): 'C02.kernel',
+    ('v1::Linear', 'Mul', 'v1::Linear'): 'C02.keys', ('v1::Polynomial', 'Mul', 'v1::Polynomial'): 'C02.keys',
+    ('v1::Polynomial', 'Mul', 'f64'): 'C02.kernel', ('v1::Quadratic', 'Mul', 'v1::Quadratic'): 'C02.keys',
+    ('v1::Quadratic', 'Mul', 'f64'): 'C02.branches + C02.kernel', ('v1::Function', 'Mul', 'v1::Function'): 'C02.dispatch',
+}
+# shapes for which C02.branches has a generic rule: Quadratic (+|-) {Linear, f64, Quadratic} -- the optional linear part
+NEW_KERNEL_SHAPES = [('v1::Quadratic', op, rhs) for op in ('Add', 'Sub') for rhs in ('v1::Linear', 'f64', 'v1::Quadratic')]
+
+
+def is_pure_delegation(b):
+    """straight-line body made of conversions and operator calls only (what the delegation macros generate)"""
+    if any(b.blocks[bi]['term']['k'] == 'switch' for bi in b.live): return False
+    opcalls = [c for c in b.calls if is_ops_call(c)]
+    if not opcalls or any(not is_ops_call(c) and not conv_call(c) for c in b.calls): return False
+    return not any(st['rv']['k'] == 'bin' and st['rv'].get('ty') == 'f64' for bi, st in b.stmts())
+
+
+def impl_body(ctx, i):
+    b = ctx.F.bodies.get(i['methods'][0]) if i['methods'] else None
+    if b is None:
+        bs = ctx.F.method(i['lhs'], i['op'].lower(), trait=i['op'], targs=[i['rhs']] if i['rhs'] else None)
+        b = bs[0] if len(bs) == 1 else None
+    return b
+
+
+def new_kernels(ctx, impls):
+    """impls with a hand-written body that are not kernels of the pinned tree (a delegation was replaced)"""
+    out = []
+    for i in impls:
+        t = (i['lhs'], i['op'], i['rhs'])
+        if t in PINNED_KERNELS: continue
+        b = impl_body(ctx, i)
+        if b is not None and not is_pure_delegation(b) and not (i['op'] == 'Neg' and not any(is_ops_call(c) for c in b.calls)): out.append((t, b))
+    return out
+
+
+def negated(ctx, b, e, p):
+    """the tree applies a negation to something that depends on parameter p.  Idioms: `-x` (Neg::neg or the built-in),
+    `x * -1.0` / `-1.0 * x`, `0 - x` / `zero() - x` (a subtraction whose minuend does not depend on p)"""
+    for x in T.expr_walk(e):
+        if x[0] == 'un' and x[1] == 'Neg' and p in expr_params(ctx, b, x[2]): return True
+        if x[0] == 'call' and ops_kind(x[2]) == 'Neg' and x[1] == 'neg' and x[3] and p in expr_params(ctx, b, x[3][0]): return True
+        two = None
+        if x[0] == 'call' and x[1] in ('mul', 'sub') and ops_kind(x[2]) in ('Mul', 'Sub') and len(x[3]) == 2: two = (ops_kind(x[2]), x[3][0], x[3][1])
+        if x[0] == 'bin' and x[1] in ('Mul', 'Sub'): two = (x[1], x[2], x[3])
+        if two:
+            k, a0, a1 = two
+            if k == 'Mul':
+                for c, o in ((a0, a1), (a1, a0)):
+                    c = T.strip_wrappers(c)
+                    if c[0] == 'const' and T.f64_const(c[1]) == -1.0 and p in expr_params(ctx, b, o): return True
+            elif p in expr_params(ctx, b, a1) and p not in expr_params(ctx, b, a0): return True
+    return False
+
+
 def is_ops_call(c):
     return bool(re.search(r'ops::(Add|Sub|Mul|Neg)$', c.trait or '')) and c.item in ('add', 'sub', 'mul', 'neg')
 
@@ -141,11 +203,23 @@ def deleg_rules(ctx, impls):
             # the built-in operator on f64 payloads (the Constant/Constant arm of Function) is the same operation
             fbin = {bi for bi, st in b.stmts() if st['rv']['k'] == 'bin' and st['rv'].get('ty') == 'f64' and st['rv']['op'] in want
                     and need <= set().union(*[ctx.S.slice_operand(b, o).params for o in st['rv']['ops']])}
-            if valid and (i['lhs'], i['op'], i['rhs']) not in BRANCH_KERNELS:
+            if valid and (i['lhs'], i['op'], i['rhs']) not in BRANCH_KERNELS and (i['lhs'], i['op'], i['rhs']) not in NEW_KERNEL_SHAPES:
                 if not T.must_pass(b, 0, return_blocks(b), {c.bb for c in valid} | fbin):
                     decided += 1
                     ctx.bad(rid, 'T-DELEG', b.name, 'the impl delegates to `%s` of its operands, but not on every path: a path returns without it (the result of an operator may not depend on anything but the algebra of its operands)' % '/'.join(want), b.site(valid[0].bb)); continue
                 weakly(ctx, rid, 'T-DELEG', b, 'not a straight-line delegation; every path returns through the operator applied to both operands'); continue
+            t3 = (i['lhs'], i['op'], i['rhs'])
+            if t3 not in PINNED_KERNELS and (opcalls or others or has_switch):
+                # a delegation of the pinned tree was replaced by a hand-written body
+                if t3 in NEW_KERNEL_SHAPES:
+                    ctx.undecided(rid, 'T-DELEG', b.site(), 'hand-written body in place of a delegation: decided by the kernel rules of C02.branches'); continue
+                rs0 = ctx.S.backslice(b, [0])
+                neg_ok = i['op'] not in ('Sub', 'Neg') or any(ops_kind(c.trait) in ('Sub', 'Neg') for c in opcalls) or \
+                    any(st['rv']['k'] == 'un' and st['rv']['op'] == 'Neg' or st['rv']['k'] == 'bin' and st['rv']['op'] == 'Sub' and st['rv'].get('ty') == 'f64' for bi, st in b.stmts()) or rs0.has_const(r'^-1f64$')
+                if need <= rs0.params and neg_ok:
+                    weakly(ctx, rid, 'T-DELEG', b, 'hand-written body in place of a delegation, no kernel rule for this shape; the result depends on %s%s' % ('both operands' if len(need) == 2 else 'the operand', ' and a negation / subtraction is applied' if i['op'] in ('Sub', 'Neg') else '')); continue
+                decided += 1
+                ctx.bad(rid, 'T-DELEG', b.name, 'hand-written body in place of a delegation: the result does not depend on both operands%s' % (' or nothing is negated / subtracted' if i['op'] in ('Sub', 'Neg') else ''), b.site()); continue
             ctx.undecided(rid, 'T-DELEG', b.site(), 'hand-written kernel (not a pure delegation)'); continue
         decided += 1
         kinds = [re.search(r'ops::(Add|Sub|Mul|Neg)$', c.trait).group(1) for c in opcalls]
@@ -456,6 +530,17 @@ def field_stores(b, adt, field):
         if c.item in OPTION_SETTERS and 'Option' in c.name and len(c.args) >= 2:
             fs = T.access_path(b, c.args[0])[0]
             if fs and fs[-1][1] == field and _adt_is(fs[-1][0], adt): out.append((c.bb, c.args[1], None))
+    return out
+
+
+def live_stores(b, stores):
+    """stores whose value can still be there at a return: not overwritten by another store on every path to a return
+    (temporaries built with `X { linear: None, ..x }` and then replaced by `out.linear = ..` do not count)"""
+    rets = return_blocks(b); out = []
+    for x in stores:
+        others = {y[0] for y in stores if y is not x and y[0] != x[0]}
+        if others and all(T.must_pass(b, n, rets, others) for n in b.succ(x[0])): continue
+        out.append(x)
     return out
 
 
@@ -883,13 +968,13 @@ def dispatch_rules(ctx):
 
 
 # =============================================================================== C02.branches
-def _linear_part_rule(ctx, b, rid):
+def _linear_part_rule(ctx, b, rid, op='Add'):
     """`Quadratic + X` (X = Linear | f64): in every case the right operand ends up in the linear part of
     the result, and an existing linear part is added to (not replaced).
     Formulated on the stores to `.linear`: whatever way the stored value is computed (one store per
     branch, one store of a `match` value, Option setters), EVERY alternative depends on rhs, and one
     alternative is `old linear + rhs`."""
-    stores = field_stores(b, 'v1::Quadratic', 'linear')
+    stores = live_stores(b, field_stores(b, 'v1::Quadratic', 'linear'))
     probs = []; weak = []
     alts = []
     for s in stores:
@@ -899,20 +984,23 @@ def _linear_part_rule(ctx, b, rid):
     for s, e in alts:
         if 2 not in expr_params(ctx, b, e):
             probs.append('the value stored into the linear part at %s does not depend on the right operand (%s)' % (b.site(s[0]), T.expr_str(e, 4)))
+    opsym = '+' if op == 'Add' else '-'
     def combines(e):
-        for x in ops_calls_in(e, 'Add'):
+        """`old linear part + rhs`;  for a subtraction `old - rhs` (in this order) or `old + (negated rhs)`"""
+        for x in ops_calls_in(e, 'Add') + (ops_calls_in(e, 'Sub') if op == 'Sub' else []):
             a0, a1 = x[3][0], x[3][1]
-            for l, r in ((a0, a1), (a1, a0)):
-                if expr_has_field(l, 'v1::Quadratic', 'linear') and 1 in expr_params(ctx, b, l) and 2 in expr_params(ctx, b, r): return True
+            for l, r in (((a0, a1),) if ops_kind(x[2]) == 'Sub' else ((a0, a1), (a1, a0))):
+                if expr_has_field(l, 'v1::Quadratic', 'linear') and 1 in expr_params(ctx, b, l) and 2 in expr_params(ctx, b, r):
+                    if op == 'Add' or ops_kind(x[2]) == 'Sub' or negated(ctx, b, r, 2): return True
         return False
     if not any(combines(e) for s, e in alts):
         # the same on slices (covers in-place idioms the store table does not know)
-        addc = [c for c in b.calls if is_ops_call(c) and ops_kind(c.trait) == 'Add']
+        addc = [c for c in b.calls if is_ops_call(c) and ops_kind(c.trait) == op]
         def side(o, p, fld): s_ = ctx.S.slice_operand(b, o); return p in s_.params and (not fld or s_.has_field('v1::Quadratic', 'linear'))
-        if any((side(c.args[0], 1, True) and side(c.args[1], 2, False)) or (side(c.args[1], 1, True) and side(c.args[0], 2, False)) for c in addc):
-            weak.append('`old linear part + rhs` exists but is not the value of a recognised store')
+        if any((side(c.args[0], 1, True) and side(c.args[1], 2, False)) or (op == 'Add' and side(c.args[1], 1, True) and side(c.args[0], 2, False)) for c in addc):
+            weak.append('`old linear part %s rhs` exists but is not the value of a recognised store' % opsym)
         else:
-            probs.append('an existing linear part is not added to the right operand')
+            probs.append('an existing linear part is not combined with the right operand by `%s`' % opsym)
     if not stores or not T.must_pass(b, 0, return_blocks(b), {s[0] for s in stores}):
         # some path returns without a recognised store: decide on the slice of the returned value's linear part
         rs = ctx.S.backslice(b, [(0, 'linear')])
@@ -932,10 +1020,14 @@ def _linear_part_rule(ctx, b, rid):
             if not passes: cp.append('a path returns without storing a linear part')
             if pres == 'some':
                 lost = [e for e in calts if not combines(e)]
-                if lost: cp.append('the result\'s linear part can be %s, which is not `existing linear part + rhs`' % T.expr_str(lost[0], 3))
+                if lost: cp.append('the result\'s linear part can be %s, which is not `existing linear part %s rhs`' % (T.expr_str(lost[0], 3), opsym))
             else:
                 lost = [e for e in calts if 2 not in expr_params(ctx, b, e)]
                 if lost: cp.append('the result\'s linear part can be %s, which drops the right operand' % T.expr_str(lost[0], 3))
+                if op == 'Sub':
+                    # 0 - rhs: the absent linear part is zero, so the right operand is stored NEGATED
+                    lost = [e for e in calts if not negated(ctx, b, e, 2)]
+                    if lost: cp.append('the result\'s linear part can be %s, which is the right operand without negation (q - l = q + l when q has no linear part)' % T.expr_str(lost[0], 3))
             ctx.check(not cp, rid + '/case/lhs_' + pres, 'T-BRANCHFX', b.name, 'linear part of self %s: %s' % ('present' if pres == 'some' else 'absent', '; '.join(cp)), b.site(), alternatives=len(calts))
 
 
@@ -975,15 +1067,17 @@ def scaled_in_loop(ctx, b, adt, field):
     return res
 
 
-def branches_rules(ctx):
+def branches_rules(ctx, impls=()):
     R = 'C02.branches'
-    for lhs, op, rhs in BRANCH_KERNELS:
+    # the kernels of the pinned tree, plus impls of the same shapes whose delegation was replaced by a hand-written body
+    todo = list(BRANCH_KERNELS) + [t for t, nb in new_kernels(ctx, impls) if t in NEW_KERNEL_SHAPES and t not in BRANCH_KERNELS]
+    for lhs, op, rhs in todo:
         b = ctx.F.one(lhs, op.lower(), trait=op, targs=[rhs])
         if b is None:
             ctx.lost(R + '/%s_%s_%s' % (lhs, op, rhs), 'impl'); continue
         ctx.fn(b)
         rid = R + '/%s_%s_%s' % (lhs.split('::')[-1], op, rhs.split('::')[-1])
-        stores = field_stores(b, 'v1::Quadratic', 'linear')
+        stores = live_stores(b, field_stores(b, 'v1::Quadratic', 'linear'))
         if (lhs, op, rhs) == ('v1::Quadratic', 'Mul', 'f64'):
             # Some(l) => Some(l * rhs); None stays None; values scaled by rhs
             okv = bool(scaled_in_loop(ctx, b, 'v1::Quadratic', 'values'))
@@ -1017,16 +1111,16 @@ def branches_rules(ctx):
                 if lost: cp.append('the result\'s linear part can be %s, which is not `linear part * rhs`' % T.expr_str(lost[0], 3))
                 ctx.check(not cp, rid + '/case/lhs_some', 'T-BRANCHFX', b.name, 'linear part of self present: %s' % '; '.join(cp), b.site(), alternatives=len(calts))
             continue
-        if (lhs, op, rhs) == ('v1::Quadratic', 'Add', 'v1::Quadratic'):
+        if rhs == 'v1::Quadratic' and op in ('Add', 'Sub'):
             # result.linear is built from both operands' linear parts; where both exist they are added
             both = False; roots = set()
             for s in stores:
                 if s[1] is not None: roots |= {(p, f) for p, a, f in ctx.S.slice_operand(b, s[1]).root_fields}
                 for e in store_alts(b, s)[0]:
-                    for x in ops_calls_in(e, 'Add'):
+                    for x in ops_calls_in(e, 'Add') + (ops_calls_in(e, 'Sub') if op == 'Sub' else []):
                         ps = [expr_params(ctx, b, a) for a in x[3][:2]]
                         fl = [expr_has_field(a, 'v1::Quadratic', 'linear') for a in x[3][:2]]
-                        if all(fl) and ((1 in ps[0] and 2 in ps[1]) or (2 in ps[0] and 1 in ps[1])): both = True
+                        if all(fl) and ((1 in ps[0] and 2 in ps[1]) or (2 in ps[0] and 1 in ps[1] and ops_kind(x[2]) == 'Add')): both = True
             ok = both and {(1, 'linear'), (2, 'linear')} <= roots and bool(stores) and T.must_pass(b, 0, return_blocks(b), {s[0] for s in stores})
             ctx.check(ok, rid, 'T-BRANCHFX', b.name, 'the linear part of the sum does not combine both operands\' linear parts', b.site())
             # the four presence cases: an absent linear part is zero, so a present one must reach the result whatever the other is
@@ -1038,15 +1132,21 @@ def branches_rules(ctx):
                 if len(who) == 1:
                     lost = [e for e in alts if not carries_linear(ctx, b, e, who[0])]
                     if lost: probs.append('the result\'s linear part can be %s, which drops the linear part of the %s operand' % (T.expr_str(lost[0], 3), 'left' if who[0] == 1 else 'right'))
+                    if op == 'Sub' and who[0] == 2:
+                        lost = [e for e in alts if not negated(ctx, b, e, 2)]
+                        if lost: probs.append('the result\'s linear part can be %s, which is the right operand\'s linear part without negation' % T.expr_str(lost[0], 3))
                 else:
                     def adds_both(e):
+                        if op == 'Sub':
+                            return any(carries_linear(ctx, b, x[3][0], 1) and carries_linear(ctx, b, x[3][1], 2) for x in ops_calls_in(e, 'Sub') if len(x[3]) == 2) or \
+                                   any(carries_linear(ctx, b, x[3][0], 1) and carries_linear(ctx, b, x[3][1], 2) and negated(ctx, b, x[3][1], 2) for x in ops_calls_in(e, 'Add') if len(x[3]) == 2)
                         return any(carries_linear(ctx, b, x[3][0], 1) and carries_linear(ctx, b, x[3][1], 2) or carries_linear(ctx, b, x[3][0], 2) and carries_linear(ctx, b, x[3][1], 1) for x in ops_calls_in(e, 'Add') if len(x[3]) == 2)
                     if not any(adds_both(e) for e in alts): probs.append('the two linear parts are not added')
                     lost = [e for e in alts if not (e[0] == 'agg' and e[1].endswith('Option::None')) and not (carries_linear(ctx, b, e, 1) and carries_linear(ctx, b, e, 2))]
                     if lost: probs.append('the result\'s linear part can be %s, which does not contain both linear parts' % T.expr_str(lost[0], 3))
                 ctx.check(not probs, rid + '/case/' + name, 'T-BRANCHFX', b.name, 'linear part present in %s: %s' % (name, '; '.join(probs)), b.site(), alternatives=len(alts))
             continue
-        _linear_part_rule(ctx, b, rid)
+        _linear_part_rule(ctx, b, rid, op)
     ctx.floor(R, 12)
 
 
@@ -1538,9 +1638,22 @@ def kernel_rules(ctx):
 #   collected from a BTreeSet / BTreeMap iteration                     (ordered containers)
 #   Vec::new() / vec![] / Vec::with_capacity(..) never written to      (empty)
 #   the inner vector of an existing SortedIds, not written to          (already sorted)
+#   at most one element: vec![x], vec![], one push onto an empty Vec   (nothing to order)
 SORT_ITEMS = re.compile(r'^(sort|sort_unstable|sort_by|sort_by_key|sort_unstable_by|sort_unstable_by_key|sort_by_cached_key)$')
 SORTED_ADAPTORS = re.compile(r'^(sorted|sorted_unstable|sorted_by|sorted_by_key|sorted_unstable_by|sorted_unstable_by_key|sorted_by_cached_key)$')
 SORTED_IDS = 'sorted_ids::SortedIds'
+
+
+def array_len(e):
+    """N if the tree is a Vec made from an array literal of N elements (`vec![a, b]` in its lowerings:
+    box_assume_init_into_vec_unsafe::<T, N>(Box::<[T; N]>::new_uninit()) or <[T]>::into_vec(Box::new([..])))"""
+    for x in T.expr_walk(e):
+        if x[0] == 'agg' and x[1] == 'array': return len(x[2])
+        if x[0] == 'call':
+            m = re.search(r'box_assume_init_into_vec_unsafe::<.*,\s*(\d+)>$', x[2]) or re.search(r'Box::<\[[^\]]*;\s*(\d+)\]>', x[2]) or \
+                (re.search(r'\[[^\]]*;\s*(\d+)\]', x[2]) if x[1] in ('into_vec', 'from') else None)
+            if m: return int(m.group(1))
+    return None
 
 
 def unsorted_constructions(ctx, b):
@@ -1571,7 +1684,11 @@ def unsorted_constructions(ctx, b):
         if any(SORTED_ADAPTORS.match(x[1]) for x in calls) and not writes: continue
         if any(x[1] in ('collect', 'from_iter', 'into_iter', 'iter', 'keys', 'into_keys') and re.search(r'BTreeSet|BTreeMap|btree_set::|btree_map::', x[2]) for x in calls) and not writes: continue
         se = T.strip_wrappers(e)
-        if se[0] == 'call' and se[1] in ('new', 'with_capacity', 'default') and 'Vec' in se[2] and not writes: continue
+        if se[0] == 'call' and se[1] in ('new', 'with_capacity', 'default') and 'Vec' in se[2]:
+            if not writes: continue
+            # at most one element: only `push`es, and no push can follow another push (none in a loop, none after one)
+            if all(w.item == 'push' for w in writes) and not any(w2.bb in b.reach([w1.target]) for w1 in writes for w2 in writes if w1.target >= 0): continue
+        if not writes and array_len(e) is not None and array_len(e) <= 1: continue      # vec![x] / vec![]: 0 or 1 element
         if se[0] == 'place' and se[2] and _adt_is(se[2][-1][0], SORTED_IDS) and not writes: continue
         bad.append((bi, 'the ids (%s) are not sorted here' % T.expr_str(e, 3)))
     return bad, n
@@ -1654,6 +1771,6 @@ def sum_rules(ctx):
 
 def check(ctx):
     impls = op_impls(ctx)
-    table_rules(ctx, impls); deleg_rules(ctx, impls); dispatch_rules(ctx); branches_rules(ctx); iter_rules(ctx); keys_rules(ctx); kernel_rules(ctx)
+    table_rules(ctx, impls); deleg_rules(ctx, impls); dispatch_rules(ctx); branches_rules(ctx, impls); iter_rules(ctx); keys_rules(ctx); kernel_rules(ctx)
     sorted_rules(ctx)
     sum_rules(ctx)
